@@ -411,6 +411,9 @@ class Encoder(object):
             k = r.random()
             if k < 0.03 and is_mem and fix is None:
                 prefixes = b"\x67" + prefixes
+            elif k < 0.25 and ent['grp'] == 'string':
+                # address-size override on a string instruction: ESI/EDI/ECX instead of RSI/RDI/RCX
+                prefixes = b"\x67" + prefixes
             elif k < 0.045:
                 prefixes = bytes([r.choice([0x2e, 0x3e, 0x26, 0x36])]) + prefixes
             elif k < 0.07 and rex:
